@@ -178,9 +178,86 @@ def add_finders(rep, prefix):
     run('beartype/_check/error/_pep/pep484585/errpep484585container.py', 'find_cause_pep484585_container_args_1', None, 1)
     run('beartype/_check/error/_pep/pep484585/errpep484585container.py', 'find_cause_pep484585_tuple_fixed', tuple, 0)
     run('beartype/_check/error/_pep/pep484585/errpep484585mapping.py', 'find_cause_pep484585_mapping', cabc.Mapping, 2)
-    rep.assumptions += ['explanation path: callee contract of find_cause_type_instance_origin ASSUMED (no shallow cause => the pith is an instance of the hint\'s origin class: tuple / a Mapping class)',
+    rep.assumptions += ['explanation path: callee contract of find_cause_type_instance_origin (no shallow cause => the pith is an instance of the hint\'s origin class) is established by add_shallow()',
                         'explanation path: the leading assert statements of the finders are dropped (internal invariants: cause type, sign, number of child hints >= 1 / 2)',
                         'explanation path: permute_cause / find_cause (the recursive descent into the item) are callee contracts: the item is described by the same finders']
+
+def add_shallow(rep, prefix):
+    """the callee contract the container finders use (so far ASSUMED): find_cause_type_instance_origin() reports no shallow cause only if the
+    pith is an instance of the origin class.  Function mode on find_cause_instance_type (the cause it returns carries no message iff
+    isinstance(pith, hint)) and on find_cause_type_instance_origin (it is find_cause_instance_type on a copy of the cause whose hint is the
+    origin class).  permute_cause* are callee contracts: a shallow copy with exactly the named fields replaced."""
+    import ast
+    from pyvc import funcmode, model as M, symx, discharge
+    from pyvc.symx import Exec, St, VObj, VPy, VBool
+    import beartype._check.error._nonpep.errnonpeptype as mod
+    uni = M.Universe(); uni.const(str); NONE = uni.const(None)
+    CAUSE = z3.Const('cause', M.Obj)
+    def F(name): return z3.Const(f'H_{name}', z3.ArraySort(M.Obj, M.Obj))
+    PITH = z3.Select(F('pith'), CAUSE); HINT = z3.Select(F('hint_curr_sanified'), CAUSE)
+    def m_noop(ex_, s, f, a, kw, w): return [(s, VPy(None))]
+    def m_fresh(tag): return lambda ex_, s, f, a, kw, w: [(s, VObj(M.fresh(tag)))]
+    def m_permute(ex_, s, f, a, kw, w):
+        kw = dict(kw) if not isinstance(kw, dict) else kw
+        return [(s.ev('permute', {k: v for k, v in kw.items()}), VObj(M.fresh('cause_copy')))]
+    def m_user_str(ex_, s, f, a, kw, w): return [(s.ev('usercall'), VObj(M.fresh('instancecheck_str')))]
+    drop = lambda node: [st for st in node.body if not isinstance(st, ast.Assert) and not (isinstance(st, ast.Expr) and isinstance(st.value, ast.Constant))]
+    # ---- find_cause_instance_type
+    fobj, node, _ = funcmode.load('beartype/_check/error/_nonpep/errnonpeptype.py', 'find_cause_instance_type')
+    cm = {'.permute_cause': m_permute}
+    for nm in ('die_unless_type_isinstanceable', 'die_unless_func_args_len_flexible_equal'):
+        if hasattr(mod, nm): cm[getattr(mod, nm)] = m_noop
+    for nm in ('represent_pith', 'label_type'):
+        if hasattr(mod, nm): cm[getattr(mod, nm)] = m_fresh(nm)
+    ex = Exec(uni, dict(mod.__dict__), call_model=cm, name='find_cause_instance_type'); ex.fields_mode = True; ex.method_names = {'permute_cause'}; ex.fstr_eval_calls = False
+    orig_call = ex.call
+    def call(s, fv, args, kw, where, _o=orig_call):
+        # the user-defined __instancecheck_str__ hook fetched by getattr(): an abstract user callable returning some object
+        if isinstance(fv, VObj): return [(s.ev('usercall'), VObj(M.fresh('instancecheck_str')))]
+        return _o(s, fv, args, kw, where)
+    ex.call = call
+    try: outs = ex.exec_block(drop(node), St((('cause', VObj(CAUSE)),), ()))
+    except symx.Unsupported as e: rep.error(f'{prefix}.find_cause_instance_type: unsupported: {e}'); outs = []
+    pr = discharge.Prover(uni.axioms()); n = 0
+    for i, (kind, s_, v) in enumerate(outs):
+        if kind != 'return': continue
+        per = [e for e in s_.events if e[0] == 'permute']
+        if len(per) != 1: rep.add(f'{prefix}.find_cause_instance_type.post.one_copy.path{i}', 'refuted', backend='structural', where=f'{len(per)} permute_cause calls'); continue
+        n += 1; msg = per[0][1].get('cause_str_or_none')
+        none_msg = isinstance(msg, VPy) and msg.o is None
+        if not none_msg and isinstance(msg, VObj):
+            r0 = pr.prove(list(s_.pc), msg.t != NONE); none_msg = False
+        goal = M.inst(PITH, HINT) if none_msg else z3.Not(M.inst(PITH, HINT))
+        r = pr.prove(list(s_.pc), goal)
+        rep.add(f'{prefix}.find_cause_instance_type.post.no_message_iff_instance.path{i}', r.status, time=r.time, backend=r.backend, reason=r.reason,
+                where='the returned cause carries no message exactly when isinstance(pith, hint) holds (and only the message field is replaced)')
+        rep.add(f'{prefix}.find_cause_instance_type.post.only_message_replaced.path{i}', 'proved' if set(per[0][1]) == {'cause_str_or_none'} else 'refuted', backend='structural', where=f'permute_cause({sorted(per[0][1])})')
+    if not n: rep.error(f'{prefix}.find_cause_instance_type: no returning path')
+    # ---- find_cause_type_instance_origin
+    fobj, node, _ = funcmode.load('beartype/_check/error/_nonpep/errnonpeptype.py', 'find_cause_type_instance_origin')
+    ORIGIN = z3.Const('origin_type', M.Obj)
+    def m_origin(ex_, s, f, a, kw, w):
+        return [(s2, VPy(None) if none else VObj(ORIGIN)) for s2, none in ex_.fork(s, z3.Bool('origin_is_none'))]
+    def m_permute_child(ex_, s, f, a, kw, w): return [(s.ev('permute_child', ex_.obj(a[0]) if a else None, dict(kw) if not isinstance(kw, dict) else kw), VObj(z3.Const('cause_for_origin', M.Obj)))]
+    def m_find_inst(ex_, s, f, a, kw, w): return [(s.ev('find_instance', ex_.obj(a[0])), VObj(z3.Const('shallow_result', M.Obj)))]
+    cm = {'.permute_cause_hint_child_insane': m_permute_child, mod.find_cause_instance_type: m_find_inst}
+    for nm in ('get_hint_pep_origin_type_isinstanceable_or_none',):
+        if hasattr(mod, nm): cm[getattr(mod, nm)] = m_origin
+    ex = Exec(uni, dict(mod.__dict__), call_model=cm, name='find_cause_type_instance_origin'); ex.fields_mode = True; ex.method_names = {'permute_cause_hint_child_insane'}
+    try: outs = ex.exec_block(drop(node), St((('cause', VObj(CAUSE)),), (ORIGIN != NONE,)))
+    except symx.Unsupported as e: rep.error(f'{prefix}.find_cause_type_instance_origin: unsupported: {e}'); outs = []
+    n = 0
+    for i, (kind, s_, v) in enumerate(outs):
+        if kind != 'return': continue
+        n += 1
+        pc_ = [e for e in s_.events if e[0] == 'permute_child']; fi = [e for e in s_.events if e[0] == 'find_instance']
+        ok = (len(pc_) == 1 and pc_[0][1] is not None and pc_[0][1].eq(ORIGIN) and not pc_[0][2] and len(fi) == 1 and fi[0][1].eq(z3.Const('cause_for_origin', M.Obj))
+              and isinstance(v, VObj) and v.t.eq(z3.Const('shallow_result', M.Obj)))
+        rep.add(f'{prefix}.find_cause_type_instance_origin.post.is_instance_test_against_the_origin.path{i}', 'proved' if ok else 'refuted', backend='structural',
+                where='returns find_cause_instance_type(<copy of the cause whose hint is the origin class, every other field - the pith - kept>)')
+    if not n: rep.error(f'{prefix}.find_cause_type_instance_origin: no returning path')
+    rep.functions += ['beartype/_check/error/_nonpep/errnonpeptype.py:find_cause_instance_type (mode F)', 'beartype/_check/error/_nonpep/errnonpeptype.py:find_cause_type_instance_origin (mode F)']
+    rep.assumptions += ['explanation path: HintTreeError.permute_cause* return a shallow copy with exactly the named fields replaced, and sanifying the origin class of a hint yields that class (false under an override keyed by the origin class: KF-C03-origin-override-desync)']
 
 EXPLAIN_SCENARIOS = [
     # (hint source, object source): a conforming-or-uninspectable sibling that must be left alone + a culprit that makes the check fail
